@@ -299,9 +299,37 @@ def judge_vertex_shape(chk, it, rcirc):
             if np.linalg.norm(np.array(b.center) - cen) > 1e-12 * (size + np.linalg.norm(cen)) or abs(b.radius - rr) > 1e-9 * size:
                 chk.violation(name, dict(desc, center=np.array(b.center).tolist(), radius=float(b.radius), exact_radius=rr))
             radius_getter(chk, sh, name, float(b.radius), desc)
+    older_names(chk, sh, size, desc)
     chk.sample(dict(cls=type(sh).__name__, kind=it["kind"], nverts=len(V), cyclic=it["cyc"], tangential=it["tan"]))
     solver_retry_probe(chk, sh, dim, V, desc)
     balls_move_with_the_shape(chk, sh, dim, size, desc)
+
+
+OLDER_NAMES = (("incircle_from_center", "maximal_centered_bounded_circle"), ("insphere_from_center", "maximal_centered_bounded_sphere"),
+               ("circumsphere_from_center", "minimal_centered_bounding_sphere"), ("circumcircle_from_center", "minimal_centered_bounding_circle"),
+               ("bounding_circle", "minimal_bounding_circle"), ("bounding_sphere", "minimal_bounding_sphere"))
+
+
+def older_names(chk, sh, size, desc):
+    """The balls are also reachable under their older (deprecated) names: the ball answered under an older name is the ball of the
+    definition, i.e. the one answered under the current name (same outcome, same centre and radius)."""
+    import warnings
+    for old, new in OLDER_NAMES:
+        if not (hasattr(type(sh), old) and hasattr(type(sh), new)):
+            continue
+        with warnings.catch_warnings():
+            warnings.simplefilter("ignore")
+            for _try in range(3):      # (the miniball-based ones: recorded finding miniball-randomised-solver - judged on a re-read)
+                (sa, a), (sb, b) = C.excname(lambda: getattr(sh, old)), C.excname(lambda: getattr(sh, new))
+                same = sa == sb and (sa != "ok" or (np.linalg.norm(np.array(a.center, float) - np.array(b.center, float)) <= 1e-7 * (size + 1e-300)
+                                                     and abs(float(a.radius) - float(b.radius)) <= 1e-7 * (size + 1e-300)))
+                if same or "minimal_bounding" not in new:
+                    break
+        chk.count("older-name:" + old)
+        if not same:
+            chk.violation(old + "-is-not-" + new, dict(desc, outcomes=[sa, sb],
+                                                     older_name=None if sa != "ok" else dict(center=np.array(a.center, float).tolist(), radius=float(a.radius)),
+                                                     current_name=None if sb != "ok" else dict(center=np.array(b.center, float).tolist(), radius=float(b.radius))))
 
 
 def solver_retry_probe(chk, sh, dim, V, desc):
